@@ -1,7 +1,9 @@
 package vkit
 
 import (
+	"errors"
 	"os"
+	"strconv"
 	"strings"
 	"sync"
 	"sync/atomic"
@@ -45,11 +47,55 @@ func OsFsImport() afero.Fs {
 	return memFs
 }
 
-// slowFs is the in-memory filesystem with one injected fault: files whose path starts with
+// slowFs is the in-memory filesystem with injected faults. Files whose path starts with
 // /slow/ are read slowly (at most 4 KiB per Read, SlowReadDelay per call) and every such Read
 // is counted, so that a monitor can cancel a component while it is still reading its input
-// and then count — logically, not by the clock — how much it went on reading.
+// and then count — logically, not by the clock — how much it went on reading. Opening a path
+// under /failopen/ for reading fails after FailOpenDelay (a source that cannot be opened,
+// found out late); a file under /failread/<n>/ delivers n bytes and then fails every Read.
 type slowFs struct{ afero.Fs }
+
+var (
+	FailOpenDelay   = 40 * time.Millisecond
+	ErrInjectedOpen = errors.New("injected fault: the source cannot be opened")
+	ErrInjectedRead = errors.New("injected fault: read error")
+)
+
+type failReadFile struct {
+	afero.File
+	left int
+}
+
+func (f *failReadFile) Read(p []byte) (int, error) {
+	if f.left <= 0 {
+		return 0, ErrInjectedRead
+	}
+	if len(p) > f.left {
+		p = p[:f.left]
+	}
+	n, err := f.File.Read(p)
+	f.left -= n
+	return n, err
+}
+
+func faulty(name string, f afero.File, err error) (afero.File, error) {
+	switch {
+	case strings.HasPrefix(name, "/failopen/"):
+		if f != nil {
+			_ = f.Close()
+		}
+		time.Sleep(FailOpenDelay)
+		return nil, ErrInjectedOpen
+	case err != nil:
+		return f, err
+	case strings.HasPrefix(name, "/slow/"):
+		return &slowFile{File: f}, nil
+	case strings.HasPrefix(name, "/failread/"):
+		n, _ := strconv.Atoi(strings.SplitN(strings.TrimPrefix(name, "/failread/"), "/", 2)[0])
+		return &failReadFile{File: f, left: n}, nil
+	}
+	return f, nil
+}
 
 var (
 	SlowReads     atomic.Int64
@@ -58,18 +104,15 @@ var (
 
 func (s *slowFs) Open(name string) (afero.File, error) {
 	f, err := s.Fs.Open(name)
-	if err == nil && strings.HasPrefix(name, "/slow/") {
-		return &slowFile{File: f}, nil
-	}
-	return f, err
+	return faulty(name, f, err)
 }
 
 func (s *slowFs) OpenFile(name string, flag int, perm os.FileMode) (afero.File, error) {
 	f, err := s.Fs.OpenFile(name, flag, perm)
-	if err == nil && strings.HasPrefix(name, "/slow/") && flag&(os.O_WRONLY|os.O_RDWR) == 0 {
-		return &slowFile{File: f}, nil
+	if flag&(os.O_WRONLY|os.O_RDWR) != 0 {
+		return f, err
 	}
-	return f, err
+	return faulty(name, f, err)
 }
 
 type slowFile struct{ afero.File }
